@@ -41,6 +41,7 @@ def holdsFor (prop : String) (env : Env) (sc : Scenario) (obs : List Obs) : Bool
   | "C04" => C04.holds env sc obs
   | "C18" => C18.holds sc obs
   | "C19" => C19.holds sc obs
+  | "C11" => C11.holds obs
   | _ => true
 
 structure Pending where
